@@ -102,8 +102,9 @@ PROPS["C14"] = dict(
 PROPS["C13"] = dict(
     level="other",
     explanation="writer.Sink.Process executed symbolically with an io.Writer stub returning symbolic (n, err) incl. short writes, arbitrary format tables (<=F entries) and configured format: success only after exactly one Write of exactly the configured format's bytes under the sink's lock; error otherwise. (bytes.Reader.WriteTo is the standard library's code transcribed as a Go model over opaque content.)",
-    jobs=[dict(pkg="./sinks/writer", harness=["sinks/writer.go"], entries=r"^H_C13_writer", params=dict(quick=dict(F=2), thorough=dict(F=3)))],
-    must_reach=["C13.writer.rejected", "C13.writer.ok", "C13.writer.failed"],
+    jobs=[dict(pkg="./sinks/writer", harness=["sinks/writer.go"], entries=r"^H_C13_writer", params=dict(quick=dict(F=2), thorough=dict(F=3))),
+          dict(pkg="./sinks/channel", harness=["sinks/channel.go"], entries=r"^H_C13_channel", params=dict(quick={}, thorough={}))],
+    must_reach=["C13.writer.rejected", "C13.writer.ok", "C13.writer.failed", "C13.channel.ok", "C13.channel.error"],
     bounds=dict(quick="<=2 formats", thorough="<=3 formats"),
     trusted_base=COMMON_TRUST,
 )
